@@ -581,9 +581,10 @@
 		ParsedJar { entries }
 	}
 	/// a zip archive written with the zip crate directly (not with dukebox)
-	fn to_zip(j: &MJar) -> Vec<u8> {
+	fn to_zip(j: &MJar, deflate: bool) -> Vec<u8> {
 		let mut w = zip::ZipWriter::new(Cursor::new(Vec::new()));
-		let opt = || zip::write::SimpleFileOptions::default().last_modified_time(zip::DateTime::default());
+		let method = if deflate { zip::CompressionMethod::Deflated } else { zip::CompressionMethod::Stored };
+		let opt = || zip::write::SimpleFileOptions::default().compression_method(method).last_modified_time(zip::DateTime::default());
 		for (n, e) in j {
 			match e {
 				MEntry::Dir => w.add_directory(n.as_str(), opt()).unwrap_or_else(|e| panic!("harness: zip: {e}")),
@@ -642,7 +643,6 @@
 	///  "a class differing between sides contains ..." (check_merged_class)
 	/// A bundled server library is a library class (a class outside the game's packages) that only the server jar has.
 	/// Resources: the content of the side(s) that have it (either side's when they differ).  Manifest: present once, content not judged.
-	/// `reserialised`: the result went through a class writer (zip round trip), so byte identity is only required of passed-through classes.
 	fn check_merged_jar(kinds: &BTreeMap<String, Kind>, c: &MJar, s: &MJar, out: &[(String, OEntry)]) -> Result<(), String> {
 		let names: Vec<&String> = out.iter().map(|x| &x.0).collect();
 		for (i, n) in names.iter().enumerate() { if names[..i].contains(n) { return Err(format!("entry {n} occurs more than once in the result")); } }
@@ -746,28 +746,44 @@
 		});
 		t.finish();
 	}
+	/// names of the order universes: B.class differs between the sides, the others are identical where both sides have them
+	fn order_case(t: &mut Tally, n_names: usize, pat: usize, pc: &[usize], ps: &[usize], as_tree: bool, fixed: &(Vec<(String, MEntry)>, Vec<(String, MEntry)>, BTreeMap<String, Kind>)) {
+		// presence pattern per name: 0 = both sides, 1 = client only, 2 = server only
+		let p: Vec<usize> = (0..n_names).map(|i| pat / 3usize.pow(i as u32) % 3).collect();
+		let mut c: MJar = pc.iter().filter(|&&i| p[i] != 2).map(|&i| fixed.0[i].clone()).collect();
+		let s: MJar = ps.iter().filter(|&&i| p[i] != 1).map(|&i| fixed.1[i].clone()).collect();
+		c.insert(c.len() / 2, ("META-INF/X.SF".into(), MEntry::Res(b"sig".to_vec())));
+		t.case(pc != ps);
+		check_jar_case_parsed(t, &fixed.2, &c, &s, as_tree);
+	}
+	fn order_fixture() -> (Vec<(String, MEntry)>, Vec<(String, MEntry)>, BTreeMap<String, Kind>) {
+		let l = class_entry("com/lib/L.class", false, "v0");
+		let a = class_entry("net/minecraft/A.class", true, "v1");
+		let full_c = vec![("B.class".to_owned(), class_entry("B.class", false, "v0")), ("com/lib/L.class".to_owned(), l.clone()), ("assets/x.txt".to_owned(), MEntry::Res(b"one".to_vec())), ("net/minecraft/A.class".to_owned(), a.clone())];
+		let full_s = vec![("B.class".to_owned(), class_entry("B.class", false, "v1")), ("com/lib/L.class".to_owned(), l), ("assets/x.txt".to_owned(), MEntry::Res(b"one".to_vec())), ("net/minecraft/A.class".to_owned(), a)];
+		let kinds = [("B.class", Kind::GameClass), ("net/minecraft/A.class", Kind::GameClass), ("com/lib/L.class", Kind::LibraryClass), ("assets/x.txt", Kind::Resource), ("META-INF/X.SF", Kind::Signature)]
+			.into_iter().map(|(n, k)| (n.to_owned(), k)).collect();
+		(full_c, full_s, kinds)
+	}
 	/// the order of the entries inside the jars does not matter; classes handed over as bytes or as trees
 	#[test]
 	fn jar_entries_in_every_order() {
 		quiet();
 		let mut t = Tally::new("jar_entries_in_every_order");
-		let b = [class_entry("B.class", false, "v0"), class_entry("B.class", false, "v1")];
-		let a = class_entry("net/minecraft/A.class", true, "v1");
-		let l = class_entry("com/lib/L.class", false, "v0");
-		let kinds: BTreeMap<String, Kind> = [("B.class", Kind::GameClass), ("net/minecraft/A.class", Kind::GameClass), ("com/lib/L.class", Kind::LibraryClass), ("assets/x.txt", Kind::Resource), ("META-INF/X.SF", Kind::Signature)]
-			.into_iter().map(|(n, k)| (n.to_owned(), k)).collect();
-		// presence pattern per name: 0 = both sides (B: differing versions; the others identical), 1 = client only, 2 = server only
+		let fixed = order_fixture();
+		let perms = permutations(3);
+		for pat in 0..27usize { for pc in &perms { for ps in &perms { for as_tree in [false, true] { order_case(&mut t, 3, pat, pc, ps, as_tree, &fixed); } } } }
+		t.finish();
+	}
+	/// the same with a fourth name (93 312 cases, about 70 s): not in the group, runs only with VERIF_JARMERGE_FOUR=1
+	#[test]
+	fn jar_four_entries_in_every_order() {
+		if std::env::var("VERIF_JARMERGE_FOUR").is_err() { return; }
+		quiet();
+		let mut t = Tally::new("jar_four_entries_in_every_order");
+		let fixed = order_fixture();
 		let perms = permutations(4);
-		for pat in 0..81usize { for pc in &perms { for ps in &perms { for as_tree in [false, true] {
-			let p = [pat % 3, pat / 3 % 3, pat / 9 % 3, pat / 27 % 3];
-			let full_c: Vec<(String, MEntry)> = vec![("B.class".into(), b[0].clone()), ("net/minecraft/A.class".into(), a.clone()), ("com/lib/L.class".into(), l.clone()), ("assets/x.txt".into(), MEntry::Res(b"one".to_vec()))];
-			let full_s: Vec<(String, MEntry)> = vec![("B.class".into(), b[1].clone()), ("net/minecraft/A.class".into(), a.clone()), ("com/lib/L.class".into(), l.clone()), ("assets/x.txt".into(), MEntry::Res(b"one".to_vec()))];
-			let mut c: MJar = pc.iter().filter(|&&i| p[i] != 2).map(|&i| full_c[i].clone()).collect();
-			let s: MJar = ps.iter().filter(|&&i| p[i] != 1).map(|&i| full_s[i].clone()).collect();
-			c.insert(c.len() / 2, ("META-INF/X.SF".into(), MEntry::Res(b"sig".to_vec())));
-			t.case(pc != ps);
-			check_jar_case_parsed(&mut t, &kinds, &c, &s, as_tree);
-		}}}}
+		for pat in 0..81usize { for pc in &perms { for ps in &perms { for as_tree in [false, true] { order_case(&mut t, 4, pat, pc, ps, as_tree, &fixed); } } } }
 		t.finish();
 	}
 	/// the same rules when the jars are zip archives in memory, one side a zip and the other parsed, and when the result is written to a zip and read again
@@ -778,7 +794,7 @@
 		let slots = vec![
 			dir_slot("net/"),
 			class_slot("net/minecraft/A.class", Kind::GameClass, true, &["v0+junk", "v1"]),
-			class_slot("com/lib/L.class", Kind::LibraryClass, false, &["v0", "v1"]),
+			class_slot("com/lib/L.class", Kind::LibraryClass, false, &["v0"]),
 			res_slot("assets/x.txt", Kind::Resource, &["one", "two"]),
 			res_slot("META-INF/MOJANGCS.SF", Kind::Signature, &["Signature-Version: 1.0\n"]),
 		];
@@ -787,13 +803,14 @@
 		for_all_jar_pairs(&slots, &mut |c, s| {
 			n += 1;
 			let mode = n % 3;   // 0: zip + zip, 1: zip + parsed, 2: parsed + zip
-			let input = format!("client jar {} server jar {} ({})", show_jar(c), show_jar(s), ["both zip archives", "client a zip archive", "server a zip archive"][mode as usize]);
+			let deflate = n / 3 % 2 == 0;
+			let input = format!("client jar {} server jar {} ({}, {})", show_jar(c), show_jar(s), ["both zip archives", "client a zip archive", "server a zip archive"][mode as usize], if deflate { "deflated" } else { "stored" });
 			t.at(input.as_bytes());
 			t.case(nontrivial_pair(c, s));
 			let r = run(|| match mode {
-				0 => merge(UnnamedMemJar { data: to_zip(c) }, UnnamedMemJar { data: to_zip(s) }),
-				1 => merge(UnnamedMemJar { data: to_zip(c) }, to_parsed(s, false)),
-				_ => merge(to_parsed(c, false), UnnamedMemJar { data: to_zip(s) }),
+				0 => merge(UnnamedMemJar { data: to_zip(c, deflate) }, UnnamedMemJar { data: to_zip(s, deflate) }),
+				1 => merge(UnnamedMemJar { data: to_zip(c, deflate) }, to_parsed(s, false)),
+				_ => merge(to_parsed(c, false), UnnamedMemJar { data: to_zip(s, deflate) }),
 			});
 			match r {
 				Out::Panic => t.fail(input, "merge panicked: no merged jar"),
